@@ -734,7 +734,15 @@ impl VectoredIO {
             }
             match reader.read(buf) {
                 Ok(0) => break,
-                Ok(n) => total += n,
+                Ok(n) => {
+                    total += n;
+                    // A short read leaves the rest of this buffer unfilled; filling the next
+                    // buffer would break the contract that the first `total` bytes of the
+                    // buffers, taken in order, are the data read.
+                    if n < buf.len() {
+                        break;
+                    }
+                }
                 Err(e) => return if total > 0 { Ok(total) } else { Err(e) },
             }
         }
